@@ -533,6 +533,7 @@ def check(prog, rep):
         tests = [s for s in co.body if isinstance(s, ast.If) and f"args.{opt}" in U(s.test)]
         ok = bool(tests) and "parse" in U(tests[0].test) and any(isinstance(x, ast.Raise) for x in tests[0].body)
         r5.add(f"parse-only|{opt}", ok, f"check_options rejects --{opt} unless the force field is PARSE", wco)
+    rep.guarded(rule_whitespace_keeps_every_record, prog, rep, "R8")
 
 
 MODEL_NAMESPACES = 3 * 5 * 3
@@ -563,3 +564,27 @@ def parse_only_on_models(prog):
                     if not (nn or nc):
                         wrong.append(("neutralc", what))
     return wrong
+
+
+def rule_whitespace_keeps_every_record(prog, rep, rid="R8"):
+    """print_pqr is evaluated on the model output lines (records with short and five-digit serial numbers, ATOM and HETATM, with and without a
+    chain identifier, a residue called TER, an atom called END) with and without --whitespace, for PDB and mmCIF input: the option may only
+    insert blanks - the same records, in the same order, with the same non-blank characters."""
+    from .shared import pqr_model, written_file
+    r = rep.rule(rid, "--whitespace only inserts blanks: the same records, in the same order, with the same characters", floor=2)
+    fn = prog.func("main.py", "print_pqr")
+    where = f"pdb2pqr/main.py:{fn.node.lineno} (print_pqr)"
+    extra = (("HETATM", 10432, "O", "HOH", "B", 2001, None, 1.0, 2.0, 3.0, -0.834, 1.6612), ("HETATM", 99999, "H1", "HOH", None, 2001, None, -1.0, -2.0, -3.0, 0.417, 0.0),
+             ("ATOM", 10433, "HT1", "TER", "A", 1, None, 4.0, 5.0, 6.0, 0.33, 0.2245), ("ATOM", 100000, "END", "UNK", None, 12, None, 7.0, 8.0, 9.0, 0.0, 1.0))
+    model, _ = pqr_model(prog, extra)
+    lines = [ln if ln.endswith("\n") else ln + "\n" for ln, w in model if w is not None]
+    squeeze = lambda s_: "".join(s_.split())  # noqa: E731
+    for is_cif in (False, True):
+        tag = "mmCIF input" if is_cif else "PDB input"
+        plain = [x for x in written_file(prog, lines, False, is_cif) if x.strip() and not x.startswith(("REMARK", "TER", "END", "#"))]
+        spaced = [x for x in written_file(prog, lines, True, is_cif) if x.strip() and not x.startswith(("REMARK", "TER", "END", "#"))]
+        lost = [p.rstrip() for p in plain if squeeze(p) not in {squeeze(s_) for s_ in spaced}]
+        order_ok = [squeeze(p) for p in plain] == [squeeze(s_) for s_ in spaced]
+        r.add(f"records|{tag}", not lost and order_ok and len(plain) >= len(lines),
+              f"{tag}: {len(lines)} model records; written without the option {len(plain)}, with it {len(spaced)}" +
+              (f"; records that disappear or change under --whitespace: {lost[:3]}" if lost else "" if order_ok else "; the order or the characters of the records differ"), where)
